@@ -984,7 +984,9 @@ def pop(info, a):
     if not s in [16,32]:
         raise ValueError('bad size stacker!')
     new_esp = ExprOp('+', esp, ExprInt32(s/8))
-    e.append(ExprAff(esp, new_esp))
+    if not (a == esp or (isinstance(a, ExprSlice) and a.arg == esp)):
+        # (pop esp: the popped value is what esp holds afterwards)
+        e.append(ExprAff(esp, new_esp))
     # XXX FIX XXX for pop [esp]
     if isinstance(a, ExprMem):
         a =a.replace_expr({esp:new_esp})
